@@ -16,7 +16,7 @@ LEVEL = 'fault_enumeration'
 RULE = ('Hypothesis draws small files (3..8 events, 1..4 parameters) over every layout axis of C01; for each file '
         'EVERY truncation offset 0..len-1 is tried (exhaustive per file, incl. the empty file) plus single-field '
         'corruptions of $TOT, $PAR, each $PnB, HEADER text/data begin/end and TEXT $BEGINDATA/$ENDDATA to '
-        '{v-1, v+1, v/2, 2v, 0, 99999} (same printed width, rest of the file self-consistent). evaluations counts '
+        '{v-1, v+1, v/2, 2v, 0, 99999} (offsets also v-2, v-3, v-5, v+2, v+3; same printed width, rest of the file self-consistent). evaluations counts '
         'files; subclaims.loud counts damaged loads.  Non-trivial file = one that has a cut inside TEXT or DATA and '
         'at least one corruption that leaves the file parseable up to the size check (every generated file).')
 ASSUMPTIONS = ['independent writer pbt/fcsgen.py; the intact answer is known from the case',
@@ -44,8 +44,11 @@ def strategy(tier):
     return _file()
 
 
-def variants(v):
-    return sorted(set(x for x in (v - 1, v + 1, v // 2, v * 2, 0, 99999) if x >= 0 and x != v))
+def variants(v, offsets=False):
+    vs = [v - 1, v + 1, v // 2, v * 2, 0, 99999]
+    if offsets:
+        vs += [v - 2, v - 3, v - 5, v + 2, v + 3]          # a few bytes off: lands inside the neighbouring token
+    return sorted(set(x for x in vs if x >= 0 and x != v))
 
 
 def damages(spec, info):
@@ -63,11 +66,11 @@ def damages(spec, info):
     h = info['header']
     for f in ('text_begin', 'text_end', 'data_begin', 'data_end'):
         if h[f]:
-            for nv in variants(h[f]):
+            for nv in variants(h[f], offsets=True):
                 out.append(dict(kind='field', field=f, value=nv))
     if spec['version'] != 'FCS2.0':
         for f, v in (('$BEGINDATA', info['data_begin']), ('$ENDDATA', info['data_end'])):
-            for nv in variants(v):
+            for nv in variants(v, offsets=True):
                 out.append(dict(kind='field', field=f, value=nv))
     return out
 
